@@ -265,3 +265,76 @@ pub fn view<R: ReadDoc>(doc: &R, heads: Option<&[ChangeHash]>) -> J {
     }
     J::Array(out.into_values().collect())
 }
+
+/// C29 / C02: compare the iterator reads of every reachable object (map_range, list_range, values,
+/// keys, length) with get / get_all.  Returns a description of the first disagreement.
+pub fn iter_reads_disagree<R: ReadDoc>(doc: &R) -> Option<String> {
+    let mut todo: Vec<(ObjId, ObjType)> = vec![(ObjId::Root, ObjType::Map)];
+    let mut seen: Vec<ObjId> = vec![];
+    while let Some((obj, ty)) = todo.pop() {
+        if seen.contains(&obj) {
+            continue;
+        }
+        seen.push(obj.clone());
+        match ty {
+            ObjType::Map | ObjType::Table => {
+                let keys: Vec<String> = doc.keys(&obj).collect();
+                let mr: Vec<(String, String, ObjId, bool)> = doc
+                    .map_range(&obj, ..)
+                    .map(|it| (it.key.to_string(), format!("{:?}", automerge::Value::from(it.value.clone())), it.id(), it.conflict))
+                    .collect();
+                let vs: Vec<(String, ObjId)> = doc.values(&obj).map(|(v, id)| (format!("{:?}", v), id)).collect();
+                if mr.len() != keys.len() || vs.len() != keys.len() {
+                    return Some(format!("{}: keys {} map_range {} values {}", obj, keys.len(), mr.len(), vs.len()));
+                }
+                for (i, k) in keys.iter().enumerate() {
+                    let one = doc.get(&obj, k.as_str()).ok().flatten();
+                    let all = doc.get_all(&obj, k.as_str()).unwrap_or_default();
+                    for (v, id) in &all {
+                        if let Value::Object(t) = v {
+                            todo.push((id.clone(), *t));
+                        }
+                    }
+                    let Some((v, id)) = one else { return Some(format!("{}[{}]: key listed but get is None", obj, k)) };
+                    let want = (k.clone(), format!("{:?}", v), id.clone(), all.len() > 1);
+                    if mr[i] != want {
+                        return Some(format!("{}[{}]: map_range {:?} get {:?}", obj, k, mr[i], want));
+                    }
+                    if vs[i] != (format!("{:?}", v), id) {
+                        return Some(format!("{}[{}]: values {:?} get {:?}", obj, k, vs[i], want));
+                    }
+                }
+            }
+            ObjType::List => {
+                let len = doc.length(&obj);
+                let lr: Vec<(usize, String, ObjId, bool)> = doc
+                    .list_range(&obj, ..)
+                    .map(|it| (it.index, format!("{:?}", automerge::Value::from(it.value.clone())), it.id(), it.conflict))
+                    .collect();
+                let vs: Vec<(String, ObjId)> = doc.values(&obj).map(|(v, id)| (format!("{:?}", v), id)).collect();
+                if lr.len() != len || vs.len() != len {
+                    return Some(format!("{}: length {} list_range {} values {}", obj, len, lr.len(), vs.len()));
+                }
+                for i in 0..len {
+                    let one = doc.get(&obj, i).ok().flatten();
+                    let all = doc.get_all(&obj, i).unwrap_or_default();
+                    for (v, id) in &all {
+                        if let Value::Object(t) = v {
+                            todo.push((id.clone(), *t));
+                        }
+                    }
+                    let Some((v, id)) = one else { return Some(format!("{}[{}]: index below length but get is None", obj, i)) };
+                    let want = (i, format!("{:?}", v), id.clone(), all.len() > 1);
+                    if lr[i] != want {
+                        return Some(format!("{}[{}]: list_range {:?} get {:?}", obj, i, lr[i], want));
+                    }
+                    if vs[i] != (format!("{:?}", v), id) {
+                        return Some(format!("{}[{}]: values {:?} get {:?}", obj, i, vs[i], want));
+                    }
+                }
+            }
+            ObjType::Text => {}
+        }
+    }
+    None
+}
